@@ -6,6 +6,7 @@ import Splipy.Lemmas.C12Curve
 import Splipy.Lemmas.C12Raise
 import Splipy.Lemmas.C12Direction
 import Splipy.Lemmas.C05RaisesTo
+import Splipy.Lemmas.C12Periodic
 import Splipy.Lemmas.C12Examples
 import Mathlib.Data.Rat.Floor
 import Mathlib.Tactic.NormNum
@@ -172,18 +173,22 @@ that step).  `s ↦ a ↦ b ↦ c ↦ r` are the states after `reparam`, `lower_
 and the two `insert_knot` passes.  Conclusion: the run of `identicalDir` is these four stages, and
 for both objects every homogeneous component of the result at
 `u_i ↦ (u_i - start_i)/(end_i - start_i)` (other parameters unchanged; every side) equals the
-component of the input — for rational objects numerator and weight are rescaled by the same map, so
-the quotient is unchanged too.
+component of the input, for every parameter whose `i`-th entry lies in the domain of direction `i`
+(`RescaledOn`) — for rational objects numerator and weight are rescaled by the same map, so the
+quotient is unchanged too.  (The restriction to the domain is essential as soon as a periodic basis is
+involved: outside `[start, end]` the finite defining sum of a periodic basis is not the periodic map,
+and `lower_periodic` does change it there.  For non-periodic directions `C12_open_direction_partial`
+has the statement for all parameters.)
 
 Proved here: the `reparam` step (property C06, `C12.reparam_rescaled`), the composition, and that
 the steps which have nothing to do really do nothing (`b = a` for equal periodicities, the object of
 maximal order is not touched by `raise_order(0)`).
 
 `_partial`: the three remaining steps enter as NAMED hypotheses, each quantified only over the call
-that is actually made:
-* `H_lower₁/₂` — `lower_periodic` keeps the evaluated map (property C08; proved there only at the
-  level of the defining sums, `C08_lower_periodic_partial`, and false in the pinned code for periodic
-  bases with `n < p + k` functions);
+that is actually made, each in the form `SameMapOn m i · ·` (same domain in direction `i`, same map on it):
+* `H_lower₁/₂` — `lower_periodic` keeps the evaluated map (property C08: `C08_lower_periodic_partial`,
+  lifted to the tensor-product sum in `C12.lowerPeriodic_sameMapOn` and discharged in
+  `C12_periodic_direction_partial` under the guard `n ≥ p + k`; false in the pinned code below it);
 * `H_raise₁/₂` — `raise_order(amount > 0)` keeps the evaluated map (property C05; proved in full
   for clamped bases in ONE parametric direction and discharged for curves in `C12_open_curves`
   (`C12.raise_to_common`); open for periodic bases and for pardim 2–3, where `raise_order`
@@ -201,28 +206,28 @@ theorem C12_geometry_partial {m : ℕ} (tol : K) (c1 c2 : Bool) (s a b c r : Obj
     (ha : stageReparam s i = .ok a) (hb : stagePeriodic a i = .ok b)
     (hc : stageOrder tol c1 c2 b i = .ok c)
     (hr : stageMerge tol (max (b.1.basis i).order (b.2.basis i).order) c i = .ok r)
-    (H_lower₁ : ∀ k, a.1.lowerPeriodic k i = .ok b.1 → SameMap m a.1 b.1)
-    (H_lower₂ : ∀ k, a.2.lowerPeriodic k i = .ok b.2 → SameMap m a.2 b.2)
+    (H_lower₁ : ∀ k, a.1.lowerPeriodic k i = .ok b.1 → SameMapOn m i a.1 b.1)
+    (H_lower₂ : ∀ k, a.2.lowerPeriodic k i = .ok b.2 → SameMapOn m i a.2 b.2)
     (H_raise₁ : ∀ (amount : Int) ret, 0 < amount →
-      b.1.raiseOrderDispatch tol c1 [amount] (some ((i : ℕ) : Int)) = .ok (ret, c.1) → SameMap m b.1 c.1)
+      b.1.raiseOrderDispatch tol c1 [amount] (some ((i : ℕ) : Int)) = .ok (ret, c.1) → SameMapOn m i b.1 c.1)
     (H_raise₂ : ∀ (amount : Int) ret, 0 < amount →
-      b.2.raiseOrderDispatch tol c2 [amount] (some ((i : ℕ) : Int)) = .ok (ret, c.2) → SameMap m b.2 c.2)
-    (H_insert₁ : ∀ xs, c.1.insertKnots xs i = .ok r.1 → SameMap m c.1 r.1)
-    (H_insert₂ : ∀ xs, c.2.insertKnots xs i = .ok r.2 → SameMap m c.2 r.2) :
+      b.2.raiseOrderDispatch tol c2 [amount] (some ((i : ℕ) : Int)) = .ok (ret, c.2) → SameMapOn m i b.2 c.2)
+    (H_insert₁ : ∀ xs, c.1.insertKnots xs i = .ok r.1 → SameMapOn m i c.1 r.1)
+    (H_insert₂ : ∀ xs, c.2.insertKnots xs i = .ok r.2 → SameMapOn m i c.2 r.2) :
     identicalDir tol c1 c2 s i = .ok r
-    ∧ Rescaled m i (s.1.basis i).start (s.1.basis i).stop s.1 r.1
-    ∧ Rescaled m i (s.2.basis i).start (s.2.basis i).stop s.2 r.2
+    ∧ RescaledOn m i (s.1.basis i).start (s.1.basis i).stop s.1 r.1
+    ∧ RescaledOn m i (s.2.basis i).start (s.2.basis i).stop s.2 r.2
     ∧ ((a.1.basis i).start = 0 ∧ (a.1.basis i).stop = 1 ∧ (a.2.basis i).start = 0 ∧ (a.2.basis i).stop = 1)
     ∧ ((a.1.basis i).periodic = (a.2.basis i).periodic → b = a)
     ∧ ((b.2.basis i).order ≤ (b.1.basis i).order → c.1 = b.1)
     ∧ ((b.1.basis i).order ≤ (b.2.basis i).order → c.2 = b.2) := by
   obtain ⟨_, _, ha1, ha2⟩ := stageReparam_ok ha
   -- lower_periodic
-  have hab : SameMap m a.1 b.1 ∧ SameMap m a.2 b.2 := by
+  have hab : SameMapOn m i a.1 b.1 ∧ SameMapOn m i a.2 b.2 := by
     rcases stagePeriodic_ok hb with ⟨_, h⟩ | ⟨_, h1, h2⟩ | ⟨_, h1, h2⟩
-    · rw [h]; exact ⟨SameMap.refl _ _, SameMap.refl _ _⟩
-    · exact ⟨SameMap.of_eq h1, H_lower₂ _ h2⟩
-    · exact ⟨H_lower₁ _ h2, SameMap.of_eq h1⟩
+    · rw [h]; exact ⟨SameMapOn.refl _ _, SameMapOn.refl _ _⟩
+    · exact ⟨SameMapOn.of_eq h1, H_lower₂ _ h2⟩
+    · exact ⟨H_lower₁ _ h2, SameMapOn.of_eq h1⟩
   have hba : (a.1.basis i).periodic = (a.2.basis i).periodic → b = a := by
     intro hk
     rcases stagePeriodic_ok hb with ⟨_, h⟩ | ⟨hlt, _⟩ | ⟨hlt, _⟩
@@ -235,21 +240,21 @@ theorem C12_geometry_partial {m : ℕ} (tol : K) (c1 c2 : Bool) (s a b c r : Obj
     have := le_max_left (b.1.basis i).order (b.2.basis i).order; omega
   have hmax2 : (0 : Int) ≤ ((max (b.1.basis i).order (b.2.basis i).order : ℕ) : Int) - (b.2.basis i).order := by
     have := le_max_right (b.1.basis i).order (b.2.basis i).order; omega
-  have hbc1 : SameMap m b.1 c.1 := by
+  have hbc1 : SameMapOn m i b.1 c.1 := by
     rcases eq_or_lt_of_le hmax1 with h0 | hpos
-    · rw [← h0] at hr1; exact SameMap.of_eq (raiseOrderDispatch_zero hr1)
+    · rw [← h0] at hr1; exact SameMapOn.of_eq (raiseOrderDispatch_zero hr1)
     · exact H_raise₁ _ _ hpos hr1
-  have hbc2 : SameMap m b.2 c.2 := by
+  have hbc2 : SameMapOn m i b.2 c.2 := by
     rcases eq_or_lt_of_le hmax2 with h0 | hpos
-    · rw [← h0] at hr2; exact SameMap.of_eq (raiseOrderDispatch_zero hr2)
+    · rw [← h0] at hr2; exact SameMapOn.of_eq (raiseOrderDispatch_zero hr2)
     · exact H_raise₂ _ _ hpos hr2
   -- insert_knot
   obtain ⟨ins2, ins1, _, hk2, _, hk1⟩ := stageMerge_ok hr
   have hre1 := reparam_rescaled hw1 i ha1
   have hre2 := reparam_rescaled hw2 i ha2
   refine ⟨identicalDir_of_stages ha hb hc hr,
-    rescaled_of_stages i hw1 ha1 hab.1 hbc1 (H_insert₁ _ hk1),
-    rescaled_of_stages i hw2 ha2 hab.2 hbc2 (H_insert₂ _ hk2),
+    hre1.1.trans_on (hw1.valid i).start_lt_stop ⟨hre1.2.2.1, hre1.2.2.2⟩ ((hab.1.trans hbc1).trans (H_insert₁ _ hk1)),
+    hre2.1.trans_on (hw2.valid i).start_lt_stop ⟨hre2.2.2.1, hre2.2.2.2⟩ ((hab.2.trans hbc2).trans (H_insert₂ _ hk2)),
     ⟨hre1.2.2.1, hre1.2.2.2, hre2.2.2.1, hre2.2.2.2⟩, hba, ?_, ?_⟩
   · intro hle
     have : ((max (b.1.basis i).order (b.2.basis i).order : ℕ) : Int) - (b.1.basis i).order = 0 := by
@@ -493,6 +498,105 @@ theorem C12_open_volumes (tol : K) (htol : 0 < tol) (p1 p2 : ℕ) (hp1 : 2 ≤ p
     (fun h => raisesTo_volume tol htol i p2 (max p1 p2) hp2 (le_max_right _ _) x0 xl L (·.1) (·.2.2)
       (fun e he => (hm e he).2) hgap a.2 hwa2 hb2 (hother₂ h) (hguard₂ h))
 
+/-- **A direction that is periodic in one object and open in the other — `lower_periodic` without
+hypothesis** (any pardim `m`, direction `i`; object 1 open, object 2 periodic of continuity `k ≥ 0` in
+direction `i`; the other directions arbitrary).  `s` is the pair after `make_splines_compatible`, `a`
+the pair after `reparam`.  Object 2 satisfies the guard of periodic knot insertion, `n ≥ p + k`
+functions, and has its declared seam multiplicity (`hseam`) — below the guard the pinned code is wrong
+(known finding).  Knot-vector hypotheses: the basis of object 1 and the basis `lower_periodic(-1)`
+gives object 2 (order `p₂`, non-periodic) are in common-entry form over `L` (`hb1`, `hb2`; these are
+statements about knot vectors only, decidable for concrete data).
+Conclusion: `make_splines_identical(direction=i)` succeeds: `lower_periodic` opens object 2 at the
+seam, `raise_order` brings both to order `max p₁ p₂`, the insertion passes give both the union knot
+vector; in direction `i` both objects end with the same non-periodic basis, the other directions'
+bases are unchanged; object 1 is an exact rescaling of its input for ALL parameters and object 2 for
+all parameters of its domain `[start_i, end_i]` (`RescaledOn`; a periodic object evaluated outside is
+wrapped into the domain first, property C08).
+Proved without hypotheses: `reparam` (C06), `lower_periodic` (C08 lifted by
+`C12.lowerPeriodic_sameMapOn`), the insertions (C04 lifted by `C12.insertKnots_sameMap`).
+
+`_partial`: (i) when the orders differ, `RaisesTo` for the object of lower order (`H_raise₁/₂`; theorems
+for curves / surfaces / volumes: `C12.raisesTo_curve`, `raisesTo_surface`, `raisesTo_volume` —
+`C12_periodic_curves_partial` below has none left); (ii) only the case "lowered to non-periodic": two
+periodic partners of different continuity end periodic, and the insertion passes are then periodic
+insertions (`C04_periodic_partial`, not lifted); (iii) the guard `n ≥ p + k`. -/
+theorem C12_periodic_direction_partial {m : ℕ} (tol : K) (htol : 0 < tol) (c1 c2 : Bool) (p1 p2 : ℕ)
+    (hp1 : 2 ≤ p1) (hp2 : 2 ≤ p2) (x0 xl : K) (L : List (K × ℕ × ℕ))
+    (hsep : Separated tol (clampedU x0 xl (L.map (·.1)))) (i : Fin m) (hi : (i : ℕ) ≤ 2)
+    (s a : Obj K × Obj K) (hw1 : C06.WF s.1 m) (hw2 : C06.WF s.2 m) (ha : stageReparam s i = .ok a)
+    (hb1 : a.1.basis i = openBasis p1 (clampedU x0 xl (L.map (·.1))) (clampedM p1 (L.map (·.2.1))))
+    (k : ℕ) (hk : (a.2.basis i).periodic = (k : Int))
+    (hguard : (a.2.basis i).order + k ≤ (a.2.basis i).numFunctions)
+    (hseam : (a.2.basis i).start < (a.2.basis i).kn (a.2.basis i).order)
+    (hb2 : ∀ o2, a.2.lowerPeriodic (-1) i = .ok o2 →
+      o2.basis i = openBasis p2 (clampedU x0 xl (L.map (·.1))) (clampedM p2 (L.map (·.2.2))))
+    (H_raise₁ : p1 < max p1 p2 → RaisesTo tol c1 m i p1 (max p1 p2) x0 xl L (·.1) (·.2.1) a.1)
+    (H_raise₂ : p2 < max p1 p2 → ∀ o2, a.2.lowerPeriodic (-1) i = .ok o2 →
+      RaisesTo tol c2 m i p2 (max p1 p2) x0 xl L (·.1) (·.2.2) o2) :
+    ∃ r, identicalDir tol c1 c2 s i = .ok r
+      ∧ r.1.basis i = openBasis (max p1 p2) (clampedU x0 xl (L.map (·.1)))
+          (clampedM (max p1 p2) (L.map (fun e =>
+            max (raisedMult (max p1 p2 - p1) e.2.1) (raisedMult (max p1 p2 - p2) e.2.2))))
+      ∧ r.2.basis i = r.1.basis i
+      ∧ (∀ j : Fin m, j ≠ i → r.1.basis j = s.1.basis j ∧ r.2.basis j = s.2.basis j)
+      ∧ Rescaled m i (s.1.basis i).start (s.1.basis i).stop s.1 r.1
+      ∧ RescaledOn m i (s.2.basis i).start (s.2.basis i).stop s.2 r.2 := by
+  obtain ⟨_, _, ha1, ha2⟩ := stageReparam_ok ha
+  have hre1 := reparam_rescaled hw1 i ha1
+  have hre2 := reparam_rescaled hw2 i ha2
+  obtain ⟨b, c, r, hSP, _, _, hSO, hSM, hr1, hr2, hs1, hs2, hkr⟩ :=
+    periodic_vs_open_direction tol htol c1 c2 p1 p2 hp1 hp2 x0 xl L hsep i hi a hre1.2.1 hre2.2.1 hb1 k hk
+      hguard hseam hb2 H_raise₁ H_raise₂
+  have hod1 := reparamDir_onlyDir ha1
+  have hod2 := reparamDir_onlyDir ha2
+  refine ⟨r, identicalDir_of_stages ha hSP hSO hSM, hr1, hr2, fun j hj => ?_, hre1.1.trans_same hs1,
+    hre2.1.trans_on (hw2.valid i).start_lt_stop ⟨hre2.2.2.1, hre2.2.2.2⟩ hs2⟩
+  have hne : (j : ℕ) ≠ (i : ℕ) := fun e => hj (Fin.ext e)
+  exact ⟨((hkr j hj).1).trans (hod1.basis_ne j hne), ((hkr j hj).2).trans (hod2.basis_ne j hne)⟩
+
+/-- **A periodic curve against an open curve, any orders — no hypothesis on the geometry of any called
+method.**  `C12_periodic_direction_partial` for `m = 1` with `RaisesTo` discharged by C05
+(`C12.raisesTo_curve`: continuity `m_j ≤ p_j - 1`, distinct values more than `2·(p-1)·tol` apart).
+What remains are the guard `n ≥ p + k` with the declared seam multiplicity and the two knot-vector
+statements `hb1`, `hb2`. -/
+theorem C12_periodic_curves_partial (tol : K) (htol : 0 < tol) (c1 c2 : Bool) (p1 p2 : ℕ)
+    (hp1 : 2 ≤ p1) (hp2 : 2 ≤ p2) (x0 xl : K) (L : List (K × ℕ × ℕ))
+    (hm : ∀ e ∈ L, e.2.1 ≤ p1 - 1 ∧ e.2.2 ≤ p2 - 1)
+    (hgap : Separated (2 * ((max p1 p2 - 1 : ℕ) : K) * tol) (clampedU x0 xl (L.map (·.1))))
+    (s a : Obj K × Obj K) (hw1 : C06.WF s.1 1) (hw2 : C06.WF s.2 1) (ha : stageReparam s 0 = .ok a)
+    (hb1 : a.1.basis 0 = openBasis p1 (clampedU x0 xl (L.map (·.1))) (clampedM p1 (L.map (·.2.1))))
+    (k : ℕ) (hk : (a.2.basis 0).periodic = (k : Int))
+    (hguard : (a.2.basis 0).order + k ≤ (a.2.basis 0).numFunctions)
+    (hseam : (a.2.basis 0).start < (a.2.basis 0).kn (a.2.basis 0).order)
+    (hb2 : ∀ o2, a.2.lowerPeriodic (-1) 0 = .ok o2 →
+      o2.basis 0 = openBasis p2 (clampedU x0 xl (L.map (·.1))) (clampedM p2 (L.map (·.2.2)))) :
+    ∃ r, identicalDir tol c1 c2 s 0 = .ok r
+      ∧ r.1.basis 0 = openBasis (max p1 p2) (clampedU x0 xl (L.map (·.1)))
+          (clampedM (max p1 p2) (L.map (fun e =>
+            max (raisedMult (max p1 p2 - p1) e.2.1) (raisedMult (max p1 p2 - p2) e.2.2))))
+      ∧ r.2.basis 0 = r.1.basis 0
+      ∧ Rescaled 1 0 (s.1.basis 0).start (s.1.basis 0).stop s.1 r.1
+      ∧ RescaledOn 1 0 (s.2.basis 0).start (s.2.basis 0).stop s.2 r.2 := by
+  obtain ⟨_, _, ha1, ha2⟩ := stageReparam_ok ha
+  have hwa1 := (reparam_rescaled hw1 0 ha1).2.1
+  have hwa2 := (reparam_rescaled hw2 0 ha2).2.1
+  have hfac : tol ≤ 2 * ((max p1 p2 - 1 : ℕ) : K) * tol := by
+    have h1 : (1 : K) ≤ ((max p1 p2 - 1 : ℕ) : K) := by
+      have : 1 ≤ max p1 p2 - 1 := by have := le_max_left p1 p2; omega
+      exact_mod_cast this
+    nlinarith
+  obtain ⟨r, h1, h2, h3, _, h5, h6⟩ := C12_periodic_direction_partial (m := 1) tol htol c1 c2 p1 p2 hp1 hp2
+    x0 xl L (separated_mono hfac hgap) 0 (by decide) s a hw1 hw2 ha hb1 k hk hguard hseam hb2
+    (fun _ => raisesTo_curve tol htol p1 (max p1 p2) hp1 (le_max_left _ _) x0 xl L (·.1) (·.2.1)
+      (fun e he => (hm e he).1) hgap a.1 hwa1 hb1 c1)
+    (fun _ o2 hl => by
+      obtain ⟨o2', hl', hwo2, _⟩ := lowerPeriodic_sameMapOn hwa2 0 k hk hguard hseam (-1) (le_refl _) (by omega)
+      have : o2' = o2 := by rw [hl'] at hl; injection hl
+      subst this
+      exact raisesTo_curve tol htol p2 (max p1 p2) hp2 (le_max_right _ _) x0 xl L (·.1) (·.2.2)
+        (fun e he => (hm e he).2) hgap o2' hwo2 (hb2 o2' hl') c2)
+  exact ⟨r, h1, h2, h3, h5, h6⟩
+
 /-! ## Directions -/
 
 /-- **`direction=None` is all directions in turn; a given direction touches only its own bases.**
@@ -611,14 +715,14 @@ example :
 /-- All hypotheses of `C12_geometry_partial` hold for the curves `exA` (on `[0,2]`) and `exB` (on
     `[0,4]`) of the same order with the same relative knots: only `reparam` acts, and the theorem
     gives the rescaling `u ↦ (u - 0)/(2 - 0)` resp. `(u - 0)/(4 - 0)`. -/
-example : Rescaled 1 0 (exA.basis 0).start (exA.basis 0).stop exA exA'
-    ∧ Rescaled 1 0 (exB.basis 0).start (exB.basis 0).stop exB exB' := by
+example : RescaledOn 1 0 (exA.basis 0).start (exA.basis 0).stop exA exA'
+    ∧ RescaledOn 1 0 (exB.basis 0).start (exB.basis 0).stop exB exB' := by
   obtain ⟨ha, hb, hc, hr⟩ := ex_stages
   have h := C12_geometry_partial (m := 1) exTol true true (exA, exB) (exA', exB') (exA', exB') (exA', exB')
     (exA', exB') 0 exA_wf exB_wf ha hb hc hr
-    (fun _ _ => SameMap.refl _ _) (fun _ _ => SameMap.refl _ _)
-    (fun _ _ _ _ => SameMap.refl _ _) (fun _ _ _ _ => SameMap.refl _ _)
-    (fun _ _ => SameMap.refl _ _) (fun _ _ => SameMap.refl _ _)
+    (fun _ _ => SameMapOn.refl _ _) (fun _ _ => SameMapOn.refl _ _)
+    (fun _ _ _ _ => SameMapOn.refl _ _) (fun _ _ _ _ => SameMapOn.refl _ _)
+    (fun _ _ => SameMapOn.refl _ _) (fun _ _ => SameMapOn.refl _ _)
   exact ⟨h.2.1, h.2.2.1⟩
 
 /-- `make_splines_identical` of a worked example of the harness (quadratic with a double knot on
@@ -731,6 +835,30 @@ example : ∃ r, identicalDir exTol false false (exSA, exSB) 1 = .ok r
   refine ⟨r, h1, ?_, ?_, h3, (h4 0 (by decide)).1, (h4 0 (by decide)).2, h5, h6⟩
   · rw [h2']; rfl
   · rw [h2']; decide +kernel
+
+/-- `C12_periodic_curves_partial` on an open segment and a `C^0`-periodic polyline (`n = 2 = p + k`
+    functions): `lower_periodic` opens the polyline at the seam, both end on `0,0,1/2,1,1`, the segment
+    is an exact rescaling for all parameters and the polyline on its domain `[0,2]`. -/
+example : ∃ r, identicalDir exTol true true (exSeg, exPer) 0 = .ok r
+    ∧ (r.1.basis 0).knots = #[0, 0, 1/2, 1, 1] ∧ r.2.basis 0 = r.1.basis 0
+    ∧ Rescaled 1 0 (exSeg.basis 0).start (exSeg.basis 0).stop exSeg r.1
+    ∧ RescaledOn 1 0 (exPer.basis 0).start (exPer.basis 0).stop exPer r.2 := by
+  obtain ⟨ha, hb1, hlow, hk, hguard, hseam⟩ := exPer_stages
+  have htol : (0 : ℚ) < exTol := by norm_num [exTol]
+  have hgap : Separated (2 * ((max 2 2 - 1 : ℕ) : ℚ) * exTol)
+      (clampedU (0 : ℚ) 1 ([((1 : ℚ)/2, 0, 1)].map (·.1))) := by
+    simp [Separated, clampedU, exTol]; norm_num
+  have hb2 : ∀ o2, exPera.lowerPeriodic (-1) 0 = .ok o2 →
+      o2.basis 0 = openBasis 2 (clampedU (0 : ℚ) 1 ([((1 : ℚ)/2, 0, 1)].map (·.1)))
+        (clampedM 2 ([((1 : ℚ)/2, 0, 1)].map (·.2.2))) := by
+    intro o2 h
+    rw [h] at hlow
+    simpa using hlow
+  obtain ⟨r, h1, h2, h3, h4, h5⟩ := C12_periodic_curves_partial exTol htol true true 2 2 (by norm_num) (by norm_num)
+    0 1 [((1 : ℚ)/2, 0, 1)] (by simp) hgap (exSeg, exPer) (exSeg, exPera) exSeg_wf exPer_wf ha hb1 0 hk hguard
+    hseam hb2
+  refine ⟨r, h1, ?_, h3, h4, h5⟩
+  rw [h2]; decide +kernel
 
 /-- `C12_directions`: for these curves the explicit directions `0`, `'u'`, `'U'` are the same call,
     `'v'` is a `ValueError`, and `direction=None` is the one-step loop. -/
